@@ -212,9 +212,10 @@ Inductive lout :=
 | LMissing.
 
 Definition path := list nat.
-(* o_recompute is not an oracle but the VERSION of MathMixin.consolidate_results in force: does it re-derive 'ok' from the
-   (scaled) grade of the comparer result it returns?  false for the code as found (finding C01, see Props/C01.v); the
-   harness reads it off the source on every run, so that the model follows a repaired /repo. *)
+(* o_recompute is not an oracle but the VERSION of FormulaGrader.raw_check in force: after scaling a comparer result by the
+   answer's grade_decimal, does it re-derive 'ok' from the scaled grade for results whose ok is not True?
+   false for the code as found (finding C01, see Props/C01.v); the harness reads it off the source on every run, so that
+   the model follows the repaired /repo. *)
 Record oracles := mkO { o_leaf : path -> lout; o_perm : path -> list (nat * nat); o_best : path -> nat;
                         o_recompute : bool }.
 
@@ -230,8 +231,12 @@ Definition standardize (v : cfn) : entry :=
   | CfDict g m => mkEntry (grade_to_ok g) g m
   end.
 
-(* FormulaGrader.raw_check:  result['grade_decimal'] *= answer['grade_decimal']   ('ok' is left alone) *)
-Definition scale_raw (c : Q) (e : entry) : entry := mkEntry (e_ok e) (e_grade e * c) (e_msg e).
+(* FormulaGrader.raw_check:  result['grade_decimal'] *= answer['grade_decimal']
+   code as found (recompute = false): 'ok' is left alone;
+   repaired code (recompute = true):  if result['ok'] is not True: result['ok'] = grade_decimal_to_ok(result['grade_decimal']) *)
+Definition scale_raw (recompute : bool) (c : Q) (e : entry) : entry :=
+  mkEntry (if recompute && negb (okv_eqb (e_ok e) OkTrue) then grade_to_ok (e_grade e * c) else e_ok e)
+          (e_grade e * c) (e_msg e).
 
 (* MathMixin.consolidate_results: the first result that makes the failure count exceed failable_evals
    (or the only result, if it is not ok) is returned; otherwise the pruned answer *)
@@ -243,18 +248,15 @@ Fixpoint consolidate_loop (single : bool) (failable failures : nat) (rs : list e
       else if single || (failable <? S failures)%nat then Some r
            else consolidate_loop single failable (S failures) t
   end.
-Definition consolidate (recompute : bool) (rs : list entry) (pruned : entry) (failable : nat) : entry :=
-  match consolidate_loop (length rs =? 1)%nat failable 0 rs with
-  | Some r => if recompute then mkEntry (grade_to_ok (e_grade r)) (e_grade r) (e_msg r) else r
-  | None => pruned
-  end.
+Definition consolidate (rs : list entry) (pruned : entry) (failable : nat) : entry :=
+  match consolidate_loop (length rs =? 1)%nat failable 0 rs with Some r => r | None => pruned end.
 
 Definition formula_response (recompute : bool) (failable : nat) (c : Q) (m : str) (o : okv) (l : list cfn) : ires :=
-  short (consolidate recompute (map (fun v => scale_raw c (standardize v)) l) (mkEntry o c m) failable).
+  short (consolidate (map (fun v => scale_raw recompute c (standardize v)) l) (mkEntry o c m) failable).
 
 (* SummationGraderBase.raw_check: consolidate_results(results, None, failable_evals) *)
-Definition sum_response (recompute : bool) (failable : nat) (l : list cfn) : ires :=
-  short (consolidate recompute (map standardize l) (mkEntry OkTrue 1 []) failable).
+Definition sum_response (failable : nat) (l : list cfn) : ires :=
+  short (consolidate (map standardize l) (mkEntry OkTrue 1 []) failable).
 
 Definition string_response (c : Q) (m : str) (o : okv) (s : sout) : ires :=
   match s with
@@ -637,7 +639,7 @@ Section Check.
             end
         | GSum failable =>
             match o_leaf OR p with
-            | LCfn l => Ret (RShort (sum_response (o_recompute OR) failable l))
+            | LCfn l => Ret (RShort (sum_response failable l))
             | LRet r => Ret (RShort r)
             | LRaise => Raise
             | _ => Missing
